@@ -13,4 +13,5 @@ DevSort == {"SortInPlace"}
 DevTake == {"TakeAlias", "PushLastInPlace"}
 DevAppend == {"AppendInPlace"}
 DevFilter == {"FilterInPlace"}
+DevCollect == {"CollectAdopt"}
 =============================================================================
